@@ -376,9 +376,9 @@ def gen_program(rng, maxops):
         c = rng.random()
         if style == "churn":
             c = c * 0.8
-        if c < 0.30:
+        if c < 0.36:
             stmts.append(["ins", key(), val()])
-        elif c < 0.42:
+        elif c < 0.44:
             stmts.append(["rem", key()])
         elif c < 0.56:
             stmts.append(["get", key()])
